@@ -97,7 +97,7 @@ def repv(n, f):
 
 # ---------------------------------------------------------------- items
 def Open(tag="el", define=(), sw=NOE, cs=NOE, cond=NOE, rep=None, sub=None, omit=None,
-         sattr=(), dattr=(), oe=None, name=None, bools=()):
+         sattr=(), dattr=(), oe=None, name=None, bools=(), dm="", um=None, ds="", fs="", i18n=None):
     """define: list of (global?, name, expr); rep: (global?, name, expr);
     sub: (mode, structure?, expr); omit: True | expr; sattr: list of names;
     dattr: list of (name, expr); oe: (structure?, expr)"""
@@ -115,6 +115,21 @@ def Open(tag="el", define=(), sw=NOE, cs=NOE, cond=NOE, rep=None, sub=None, omit
         "dattr": [{"n": n, "key": n.lower(), "e": e, "d": n == "", "b": n in bools} for n, e in dattr],
         "oe": {"m": "yes", "s": bool(oe[0]), "e": oe[1]} if oe else {"m": "no", "s": False, "e": NOE},
     }
+    # METAL: dm define-macro name; um = (macro name or None for a whole template, library index, extend?);
+    # ds define-slot name; fs fill-slot name
+    it["dm"] = dm
+    it["ds"] = ds
+    it["fs"] = fs
+    if um:
+        it["um"] = {"m": "yes", "mname": um[0] or "", "whole": um[0] is None, "lib": um[1], "ext": bool(um[2]) if len(um) > 2 else False,
+                    "fills": []}
+    else:
+        it["um"] = {"m": "no", "mname": "", "whole": False, "lib": 0, "ext": False, "fills": []}
+    it["mslots"] = []
+    # I18N: domain / context / target settings of the element
+    it["i18n"] = dict({"m": "no", "d": "", "c": "", "t": ""}, **(i18n or {}))
+    if i18n:
+        it["i18n"]["m"] = "yes"
     if name:
         it["name"] = name
     return it
@@ -134,8 +149,13 @@ def Text(*parts):
     return {"k": "text", "parts": ps}
 
 
-def program(items, dom, init=None, names=(), cfg=None, fam="", bools=()):
-    return {"items": list(items), "dom": dom, "init": init or {}, "cfg": cfg or {}, "fam": fam, "bools": list(bools)}
+def program(items, dom, init=None, names=(), cfg=None, fam="", bools=(), main=None, libs=()):
+    """main: number of items of the entry template; libs: [{"from": i, "to": j}] ranges of library templates"""
+    d = {"items": list(items), "dom": dom, "init": init or {}, "cfg": cfg or {}, "fam": fam, "bools": list(bools)}
+    if main is not None:
+        d["main"] = main
+        d["libs"] = list(libs)
+    return d
 
 
 # ---------------------------------------------------------------- emission
@@ -144,21 +164,76 @@ def _strip_for_tla(o):
     if isinstance(o, dict):
         if o.get("x") == "lit":
             return {"x": "lit"}
-        return {k: _strip_for_tla(v) for k, v in o.items() if k not in ("name", "cfg", "fam", "bools", "lex", "xattrs", "selfclose")}
+        return {k: _strip_for_tla(v) for k, v in o.items() if k not in ("name", "cfg", "fam", "bools", "lex", "xattrs", "selfclose", "main", "libs")}
     if isinstance(o, (list, tuple)):
         return [_strip_for_tla(x) for x in o]
     return o
 
 
+def metal_static(p):
+    """static METAL structure: fillers of every use-macro element, slot names
+    that each macro function (define-macro element or whole template) defines"""
+    items = p["items"]
+    libs = p.get("libs", [])
+    main = p.get("main", len(items))
+    stack = []          # (index, item)
+    slots = set()
+    tslots = {}
+    for it in items:
+        if it["k"] == "open":
+            it["um"]["fills"] = []
+            it["mslots"] = []
+
+    def template_of(i):
+        if i <= main:
+            return 0
+        for n, lb in enumerate(libs, 1):
+            if lb["from"] <= i <= lb["to"]:
+                return n
+        return 0
+    for idx, it in enumerate(items, 1):
+        if it["k"] == "open":
+            if it["fs"]:
+                slots.add(it["fs"])
+                for j, anc in reversed(stack):
+                    if anc["um"]["m"] == "yes":
+                        anc["um"]["fills"].append({"s": it["fs"], "i": idx})
+                        break
+            if it["ds"]:
+                slots.add(it["ds"])
+                owner = None
+                # the define-slot wrapper of an element is outside its own define-macro
+                for j, anc in reversed(stack):
+                    if anc["dm"]:
+                        owner = anc
+                        break
+                if owner is not None:
+                    if it["ds"] not in owner["mslots"]:
+                        owner["mslots"].append(it["ds"])
+                else:
+                    tslots.setdefault(template_of(idx), set()).add(it["ds"])
+            stack.append((idx, it))
+        elif it["k"] == "close":
+            stack.pop()
+    return slots, tslots
+
+
 def to_tla(p, names):
     """Program record for the Progs constant."""
     from .tla import TLASet
+    slots, tslots = metal_static(p)
     q = _strip_for_tla(p)
     nk = max([0] + list(p["dom"].keys()))
     dom = [TLASet(_freeze(v) for v in p["dom"].get(k, [])) for k in range(1, nk + 1)]
     init = {n: p["init"].get(n, UNDEF) for n in names}
     from .tla import TLASet as _S
-    return {"items": q["items"], "dom": dom, "init": init, "bools": _S(p.get("bools", ()))}
+    for it in q["items"]:
+        if it["k"] == "open":
+            it["mslots"] = _S(it["mslots"])
+    libs = p.get("libs", [])
+    return {"items": q["items"], "dom": dom, "init": init, "bools": _S(p.get("bools", ())),
+            "main": p.get("main", len(p["items"])), "slots": _S(slots), "libs": libs,
+            "tslots": [_S(tslots.get(n, ())) for n in range(1, len(libs) + 1)]}
 
 
 class _Frozen(dict):
